@@ -876,11 +876,28 @@ impl Session {
                 });
                 let body = h.join().unwrap_or_else(|_| "thread_panicked".into());
                 let dtor = rx.recv_timeout(std::time::Duration::from_secs(60)).unwrap_or_else(|_| "no_report".into());
-                f.ok().kv("body", body).kv("in_destructor", dtor);
+                // ... and from a destructor that runs while a panic unwinds the current thread
+                struct OnUnwind<'a>(&'a mut String, &'a [u8], &'a [u8], &'a [u8], (u16, u16, u16));
+                impl Drop for OnUnwind<'_> {
+                    fn drop(&mut self) {
+                        *self.0 = roundtrip(self.1, self.2, self.3, self.4 .0, self.4 .1, self.4 .2);
+                    }
+                }
+                let mut unw = String::from("not_run");
+                let (skr, pkr, rng) = (a.b("skr").to_vec(), a.b("pkr").to_vec(), a.b("rng").to_vec());
+                let _ = std::panic::catch_unwind(std::panic::AssertUnwindSafe(|| {
+                    let _g = OnUnwind(&mut unw, &skr, &pkr, &rng, ids);
+                    panic!("deliberate panic of the driver: the destructor of a local uses the library while unwinding");
+                }));
+                f.ok().kv("body", body).kv("in_destructor", dtor).kv("in_unwind", unw);
             }
             "probe_ctl" => {
                 crate::probe::FAIL_SEAL.with(|c| c.set(a.u("fail_seal") as u32));
                 f.ok().kv("seals_seen", crate::probe::SEALS.with(|c| c.get()));
+            }
+            "key_mill" => {
+                let (made, bad) = self.kem.as_ref().unwrap().key_mill(a.b("ikm"), a.u("n"), (a.u("window") as usize).clamp(2, 200));
+                f.ok().kv("made", made).kv("mism", bad);
             }
             "decap_storm" => {
                 let threads = (a.u("threads") as usize).clamp(2, 64);
